@@ -1,5 +1,4 @@
-(* C02 - the oracle that is run over implementation traces accepts every step the model can take, except
-   exactly the two recorded findings (codes 11 and 21), whose signatures it then certifies. *)
+(* C02 - the oracle that is run over implementation traces accepts every step the model can take, from every state. *)
 From Icv Require Import Base.Tac Ck.CkState Ck.CkStateProofs Ck.CkObs Ck.CkFull Ck.CkSuppProofs Ck.CkSuppStep
   Ck.CkSuppFire Ck.CkSuppThms Ck.CkSuppObs.
 Local Open Scope Z_scope.
@@ -18,12 +17,6 @@ Proof. destruct b; reflexivity. Qed.
 
 Lemma stype_back t : (if stype_eqb t Hard then Hard else Soft) = t.
 Proof. destruct t; reflexivity. Qed.
-
-Definition c02_code_ok (c : fcfg) (now : Z) (f : full) (o : op) (code : Z) : Prop :=
-  code = 0 \/
-  (code = 11 /\ exists r, o = OpResult r /\ c02_vol_soft (fc_base c) (f_st f) (r_state r) = true) \/
-  (code = 21 /\ o = OpFire /\ c02_release_cond c now f = true /\
-   ~ (c02_faithful (c_kind (fc_base c)) (s_raw (f_st f)) /\ c02_faithful (c_kind (fc_base c)) (f_sbs f))).
 
 Lemma c02_check_other c now f o kind new :
   kind <> 1 -> kind <> 2 ->
@@ -55,17 +48,17 @@ Proof.
 Qed.
 
 Theorem c02_check_model c now f o :
-  c02_code_ok c now f o (c02_check (fc_base c) (c02_model_obs c now f o)).
+  c02_check (fc_base c) (c02_model_obs c now f o) = 0.
 Proof.
   unfold c02_model_obs.
   destruct (c02_is_core_op o) eqn:Hcore.
-  2:{ left. destruct (c02_other_ops c now f o Hcore) as [Hq Hb].
+  2:{ destruct (c02_other_ops c now f o Hcore) as [Hq Hb].
       apply c02_check_other; try assumption; destruct o; cbn; try discriminate. }
   destruct o; try discriminate.
   - (* check result *)
     cbn [c02_kind_of c02_op_new].
     destruct (rejected now (f_st f) r) eqn:Hrej.
-    { left. apply c02_check_other; try discriminate; cbn [full_step]; unfold do_result; rewrite Hrej; cbn [fst snd].
+    { apply c02_check_other; try discriminate; cbn [full_step]; unfold do_result; rewrite Hrej; cbn [fst snd].
       - c02_q.
       - repeat split. }
     cbn [full_step].
@@ -100,8 +93,7 @@ Proof.
       destruct (f_sp_fstart f && f_sp_fend f) eqn:E; [reflexivity|].
       specialize (G2 eq_refl). destruct (c02_cancel _ _) as [a b]. inversion G2; subst. rewrite !eqb_refl'. reflexivity. }
     unfold c02_check. fold o.
-    assert (c02_check_state (fc_base c) o = 0 \/
-            (c02_check_state (fc_base c) o = 11 /\ c02_vol_soft (fc_base c) (f_st f) (r_state r) = true)) as Hs.
+    assert (c02_check_state (fc_base c) o = 0) as Hs.
     { unfold c02_check_state.
       assert (c2_sn o = (if send && negb (is_flapping c (f_flap f')) && negb (f_paused f) &&
                             negb (c02_reason now f' || c02_pending f)
@@ -130,7 +122,7 @@ Proof.
       replace (c2_raw0 o) with (s_raw (f_st f)) by reflexivity.
       replace (c2_hard0 o) with (stype_eqb (s_type (f_st f)) Hard) by reflexivity.
       destruct (is_ok (c_kind (fc_base c)) (s_raw (f_st f)) && negb (stype_eqb (s_type (f_st f)) Hard)) eqn:Eshape;
-        [left; reflexivity|].
+        [reflexivity|].
       assert (negb (is_ok (c_kind (fc_base c)) (s_raw (f_st f)) && stype_eqb (s_type (f_st f)) Soft) = true) as Hg.
       { destruct (is_ok _ _), (s_type (f_st f)); cbn in *; congruence. }
       rewrite Hg, andb_true_r in Hsend.
@@ -141,28 +133,15 @@ Proof.
       replace (if c2_hard1 o then Hard else Soft) with (s_type (f_st f')) by (unfold o, c02_mk_obs; cbn [c2_hard1]; rewrite stype_back; reflexivity).
       set (ep := c02_spec_problem (fc_base c) (f_st f) (r_state r) (s_type (f_st f'))) in *.
       set (er := c02_spec_recovery (fc_base c) (f_st f) (r_state r)) in *.
-      set (vs := c02_vol_soft (fc_base c) (f_st f) (r_state r)) in *.
-      destruct vs eqn:Evs.
-      - (* the finding: send = true, recovery = true *)
-        assert (send = true) as Es by (rewrite Hsend, orb_true_r; reflexivity).
-        assert (i_recovery i = true) as Er.
-        { rewrite Hrec. unfold vs, c02_vol_soft in Evs. apply andb_prop in Evs. destruct Evs as [Evs _].
-          apply andb_prop in Evs. destruct Evs as [Evs E2']. apply andb_prop in Evs. destruct Evs as [_ E1'].
-          rewrite E1', E2'. reflexivity. }
-        rewrite Es, Er in Hmodel. rewrite Hmodel. cbn [andb].
-        destruct (c02_res_ok (ep || er) er o); [left|right; split]; reflexivity.
-      - left. rewrite orb_false_r in Hsend.
-        assert (c02_res_ok (ep || er) er o = true) as ->; [|reflexivity].
-        rewrite <- Hmodel, Hsend.
-        destruct (ep || er) eqn:Ee.
-        + f_equal. rewrite Hrec. unfold ep, er, c02_spec_problem, c02_spec_recovery in *.
-          destruct (is_ok (c_kind (fc_base c)) (r_state r)); cbn [negb andb orb] in *; [|reflexivity].
-          destruct (is_ok (c_kind (fc_base c)) (s_raw (f_st f))); cbn [negb andb] in *; [discriminate|].
-          rewrite Ee. reflexivity.
-        + unfold c02_res_ok. cbn [andb]. reflexivity. }
-    destruct Hs as [Hs|[Hs Hv]]; rewrite Hs; cbn [Z.eqb].
-    + left. exact Hflap.
-    + right. left. split; [reflexivity|]. exists r. split; [reflexivity|assumption].
+      assert (c02_res_ok (ep || er) er o = true) as ->; [|reflexivity].
+      rewrite <- Hmodel, Hsend.
+      destruct (ep || er) eqn:Ee.
+      + f_equal. rewrite Hrec. unfold ep, er, c02_spec_problem, c02_spec_recovery in *.
+        destruct (is_ok (c_kind (fc_base c)) (r_state r)); cbn [negb andb orb] in *; [|reflexivity].
+        destruct (is_ok (c_kind (fc_base c)) (s_raw (f_st f))); cbn [negb andb] in *; [discriminate|].
+        rewrite Ee. reflexivity.
+      + unfold c02_res_ok. cbn [andb]. reflexivity. }
+    rewrite Hs. cbn [Z.eqb]. exact Hflap.
   - (* timer *)
     cbn [c02_kind_of c02_op_new full_step].
     destruct (do_fire_spec c now f) as [Hsame _ Hs Hfl].
@@ -172,11 +151,11 @@ Proof.
     set (o := c02_mk_obs c now 2 SOK f f' (c02_nums (c02_state_outs outs)) (c02_nums (c02_flap_outs outs))).
     set (k := c_kind (fc_base c)).
     set (rel := negb (f_paused f) && c02_pending f && c02_release_cond c now f) in *.
-    assert (c2_sn o = (if rel && negb (sstate_eqb (s_raw (f_st f)) (f_sbs f))
+    assert (c2_sn o = (if rel && negb (release_same_state k (s_raw (f_st f)) (f_sbs f))
                        then [if s_has_cr (f_st f) && is_ok k (s_raw (f_st f)) then 64 else 32] else [])) as Esn.
     { unfold o, c02_mk_obs. cbn [c2_sn]. rewrite O1, c02_nums_if. unfold c02_fire_type. fold k.
       destruct (s_has_cr (f_st f) && is_ok k (s_raw (f_st f))); reflexivity. }
-    assert (c02_fire_ok k (negb (sstate_eqb (s_raw (f_st f)) (f_sbs f))) o = true) as Hmodel.
+    assert (c02_fire_ok k (negb (release_same_state k (s_raw (f_st f)) (f_sbs f))) o = true) as Hmodel.
     { unfold c02_fire_ok. rewrite Esn. unfold o, c02_mk_obs. cbn [c2_p0 c2_p1 c2_r0 c2_r1 c2_paused c2_relcond c2_hascr0 c2_raw0].
       fold (c02_pending f). fold rel. rewrite O2, O3, c02_zs_eqb_refl, !eqb_refl'. reflexivity. }
     assert (c02_check_flap o = 0) as Hflap.
@@ -190,9 +169,7 @@ Proof.
           by (repeat match goal with |- context [if ?b then _ else _] => destruct b end; reflexivity) end.
       rewrite c02_zs_eqb_refl, !eqb_refl'. reflexivity. }
     unfold c02_check. fold o.
-    assert (c02_check_state (fc_base c) o = 0 \/
-            (c02_check_state (fc_base c) o = 21 /\ c02_release_cond c now f = true /\
-             ~ (c02_faithful k (s_raw (f_st f)) /\ c02_faithful k (f_sbs f)))) as Hst.
+    assert (c02_check_state (fc_base c) o = 0) as Hst.
     { unfold c02_check_state. fold k. rewrite Esn.
       replace (c2_paused o) with (f_paused f) by reflexivity.
       replace (c2_reason o) with (c02_reason now f') by reflexivity.
@@ -201,28 +178,19 @@ Proof.
       replace (c2_sbs1 o) with (f_sbs f') by reflexivity. replace (c2_sbs0 o) with (f_sbs f) by reflexivity.
       replace (c2_raw0 o) with (s_raw (f_st f)) by reflexivity.
       rewrite S2, sstate_eqb_refl, S6. cbn [negb]. rewrite andb_false_r.
-      assert ((negb (Z.of_nat (length (if rel && negb (sstate_eqb (s_raw (f_st f)) (f_sbs f))
+      assert ((negb (Z.of_nat (length (if rel && negb (release_same_state k (s_raw (f_st f)) (f_sbs f))
                        then [if s_has_cr (f_st f) && is_ok k (s_raw (f_st f)) then 64 else 32] else [])) <=? 1)) = false) as E1
         by (destruct (rel && _); reflexivity).
       rewrite E1.
-      assert ((negb (c02_zs_eqb (if rel && negb (sstate_eqb (s_raw (f_st f)) (f_sbs f))
+      assert ((negb (c02_zs_eqb (if rel && negb (release_same_state k (s_raw (f_st f)) (f_sbs f))
                        then [if s_has_cr (f_st f) && is_ok k (s_raw (f_st f)) then 64 else 32] else []) []) &&
                (f_paused f || c02_reason now f || (2 =? 3))) = false) as E2.
       { unfold rel, c02_release_cond.
         destruct (f_paused f), (c02_pending f), (c02_reason now f); cbn [negb andb orb Z.eqb Pos.eqb];
           rewrite ?andb_false_r; reflexivity. }
-      rewrite E2. cbn [Z.eqb Pos.eqb]. rewrite Hmodel.
-      destruct (c02_fire_ok k (negb (api_state k (s_raw (f_st f)) =? api_state k (f_sbs f))) o) eqn:Eapi; [left; reflexivity|].
-      right. split; [reflexivity|]. split.
-      - destruct (c02_release_cond c now f) eqn:Erc; [reflexivity|]. exfalso.
-        assert (forall d1 d2, c02_fire_ok k d1 o = c02_fire_ok k d2 o) as Hind.
-        { intros. unfold c02_fire_ok, o, c02_mk_obs. cbn [c2_relcond c2_paused c2_p0 c2_r0 c2_sn c2_p1 c2_r1].
-          rewrite Erc, !andb_false_r. reflexivity. }
-        rewrite (Hind _ (negb (sstate_eqb (s_raw (f_st f)) (f_sbs f)))) in Eapi. congruence.
-      - intros [F1 F2]. rewrite <- (c02_faithful_api k _ _ F1 F2) in Eapi. congruence. }
-    destruct Hst as [Hst|[Hst Hv]]; rewrite Hst; cbn [Z.eqb].
-    + left. exact Hflap.
-    + right. right. split; [reflexivity|]. split; [reflexivity|assumption].
+      rewrite E2. cbn [Z.eqb Pos.eqb].
+      rewrite <- c02_release_same_api, Hmodel. reflexivity. }
+    rewrite Hst. cbn [Z.eqb]. exact Hflap.
 Qed.
 
 (* ---- traces ---- *)
@@ -233,36 +201,10 @@ Fixpoint c02_model_trace (c : fcfg) (f : full) (l : list (Z * op)) : list c02_ob
   | no :: t => c02_model_obs c (fst no) f (snd no) :: c02_model_trace c (fst (full_step c (fst no) f (snd no))) t
   end.
 
-(* negated finding signatures along a run *)
-Fixpoint c02_no_vol_soft (c : fcfg) (f : full) (l : list (Z * op)) : Prop :=
-  match l with
-  | [] => True
-  | no :: t =>
-      match snd no with OpResult r => c02_vol_soft (fc_base c) (f_st f) (r_state r) = false | _ => True end /\
-      c02_no_vol_soft c (fst (full_step c (fst no) f (snd no))) t
-  end.
-
-Lemma c02_codes_zero c l : forall f,
-  c02_faithful (c_kind (fc_base c)) (f_sbs f) -> c02_faithful (c_kind (fc_base c)) (c02_hard_state (f_st f)) ->
-  c02_results_faithful c l -> c02_no_vol_soft c f l ->
-  Forall (fun o => c02_check (fc_base c) o = 0) (c02_model_trace c f l).
+Lemma c02_codes_zero c l : forall f, Forall (fun o => c02_check (fc_base c) o = 0) (c02_model_trace c f l).
 Proof.
-  induction l as [|no l IH]; intros f I1 I2 Hf Hv; [constructor|].
-  cbn [c02_model_trace]. cbn [c02_no_vol_soft] in Hv. destruct Hv as [Hv1 Hv2].
-  inversion Hf as [|? ? Hr Hf']; subst.
-  assert (c02_check (fc_base c) (c02_model_obs c (fst no) f (snd no)) = 0) as E.
-  { destruct (c02_check_model c (fst no) f (snd no)) as [E|[[E (r & Hop & Hvs)]|[E (Hop & Hn)]]]; [exact E| |].
-    - rewrite Hop in Hv1. congruence.
-    - exfalso. destruct Hn as [Hrc Hn]. apply Hn. split; [|assumption].
-      unfold c02_hard_state in I2. unfold c02_release_cond in Hrc.
-      destruct (stype_eqb (s_type (f_st f)) Hard); [assumption|].
-      rewrite andb_false_r in Hrc. discriminate. }
-  constructor; [exact E|].
-  apply IH; try assumption.
-  - destruct (c02_step_sbs c (fst no) f (snd no)) as [-> | ->]; assumption.
-  - destruct (c02_step_st c (fst no) f (snd no)) as [-> | (r & Hop & _ & ->)]; [assumption|].
-    rewrite Hop in Hr. unfold c02_hard_state. rewrite step_accept_raw.
-    destruct (stype_eqb _ Hard); [assumption|apply c02_faithful_ok].
+  induction l as [|no l IH]; intros f; [constructor|].
+  cbn [c02_model_trace]. constructor; [apply c02_check_model|apply IH].
 Qed.
 
 Lemma c02_first_none p b l : p 0 = false ->
@@ -272,37 +214,9 @@ Proof.
   cbn [c02_first]. rewrite Ho, Hp. apply IH.
 Qed.
 
-(* every reported failure of a model trace carries one of the two finding codes *)
-Lemma c02_first_model c p l : forall f idx i code,
-  c02_first p (fc_base c) idx (c02_model_trace c f l) = Some (i, code) -> p code = true /\ (code = 0 \/ code = 11 \/ code = 21).
+(* any start state, any operations, hosts and services, any raw results *)
+Theorem oracle_c02_accepts_model c l f :
+  oracle_c02 (fc_base c) (c02_model_trace c f l) = None.
 Proof.
-  induction l as [|no l IH]; intros f idx i code H; [discriminate|].
-  cbn [c02_model_trace c02_first] in H.
-  destruct (p (c02_check (fc_base c) (c02_model_obs c (fst no) f (snd no)))) eqn:E.
-  - inversion H; subst. split; [assumption|].
-    destruct (c02_check_model c (fst no) f (snd no)) as [E'|[[E' _]|[E' _]]]; auto.
-  - eapply IH; eassumption.
-Qed.
-
-Theorem oracle_c02_model_only_findings c l f :
-  match oracle_c02 (fc_base c) (c02_model_trace c f l) with
-  | None => True
-  | Some (_, code) => code = 11 \/ code = 21
-  end.
-Proof.
-  unfold oracle_c02.
-  destruct (c02_first (fun code => negb (code =? 0) && negb (c02_finding_code code)) (fc_base c) 0 (c02_model_trace c f l))
-    as [[i code]|] eqn:E1.
-  - apply c02_first_model in E1. destruct E1 as [Hp [->|[->| ->]]]; cbn in Hp; try discriminate; auto.
-  - destruct (c02_first (fun code => negb (code =? 0)) (fc_base c) 0 (c02_model_trace c f l)) as [[i code]|] eqn:E2; [|exact I].
-    apply c02_first_model in E2. destruct E2 as [Hp [->|[->| ->]]]; cbn in Hp; try discriminate; auto.
-Qed.
-
-Theorem oracle_c02_accepts_model c l :
-  c02_results_faithful c l -> c02_no_vol_soft c init_full l ->
-  oracle_c02 (fc_base c) (c02_model_trace c init_full l) = None.
-Proof.
-  intros Hf Hv. unfold oracle_c02.
-  pose proof (c02_codes_zero c l init_full (c02_faithful_ok _) (c02_faithful_ok _) Hf Hv) as Hz.
-  rewrite !(c02_first_none _ _ _ eq_refl Hz). reflexivity.
+  unfold oracle_c02. apply c02_first_none; [reflexivity|apply c02_codes_zero].
 Qed.
